@@ -76,7 +76,7 @@ func H_C06_distinct_str() {
 
 // H_C06_union: A UNION [ALL] B [UNION [ALL] C] [LIMIT n].
 func H_C06_union() {
-	form := verif.Choose("form", 10)
+	form := verif.Choose("form", 13)
 	na := verif.Choose("a", 3)
 	nb := verif.Choose("b", 3)
 	mk := func(n int, col string) ([]Map, []any) {
@@ -99,8 +99,19 @@ func H_C06_union() {
 	if form >= 8 {
 		off = verif.IntRange("offset", 0, 5)
 	}
+	blim := 0 // a branch's own LIMIT (forms 10..12)
+	if form >= 10 {
+		blim = verif.IntRange("branch-limit", 0, 3)
+	}
 	var sql string
 	switch form {
+	case 10:
+		// a plain SELECT branch with its own window inside a union with a LIMIT
+		sql = verif.SQL("(SELECT v FROM a LIMIT ?) UNION ALL SELECT v FROM b LIMIT ?", blim, lim)
+	case 11:
+		sql = verif.SQL("(SELECT v FROM a LIMIT ? OFFSET ?) UNION ALL (SELECT v FROM b) LIMIT ?", blim, off, lim)
+	case 12:
+		sql = verif.SQL("SELECT v FROM b UNION (SELECT v FROM a LIMIT ? OFFSET ?) LIMIT ?", blim, off, lim)
 	case 8:
 		sql = verif.SQL("SELECT v FROM a UNION SELECT v FROM b LIMIT ? OFFSET ?", lim, off)
 	case 9:
@@ -143,6 +154,28 @@ func H_C06_union() {
 		}
 	case 4:
 		want = append(refDistinct(cat), c...)
+	case 10, 11, 12:
+		var acut []any
+		o := off
+		if form == 10 {
+			o = 0
+		}
+		for i, r := range a {
+			if i >= o && i-o < blim {
+				acut = append(acut, r)
+			}
+		}
+		var all []any
+		if form == 12 {
+			all = refDistinct(append(append([]any(nil), b...), acut...))
+		} else {
+			all = append(acut, b...)
+		}
+		for i, r := range all {
+			if i < lim {
+				want = append(want, r)
+			}
+		}
 	case 8, 9:
 		// the window applies after duplicate removal
 		all := cat
